@@ -1,6 +1,6 @@
 (* Correspondence cases for C26: inputs given to the Go query builder with the text it wrote. *)
 From Coq Require Import ZArith List Bool.
-From SH Require Import Common.Wrap Common.Corr SqlFilter.Model.
+From SH Require Import Common.Wrap Common.Corr SqlFilter.Model SqlFilter.ProofsLex SqlFilter.Parser.
 Import ListNotations.
 Open Scope Z_scope.
 
@@ -50,7 +50,9 @@ Inductive case :=
    whether the Go-side evaluator of that text selected the row *)
 | CWhere (q : query) (o : str) (rows : list (list (str * Z) * list (str * str) * bool))
 (* escapeReplacer.Replace *)
-| CEsc (s : str) (o : str).
+| CEsc (s : str) (o : str)
+(* a complete series / tag-values / tag-value-ids query: the text before and after the where-clause *)
+| CFull (q : query) (pre suf : str).
 
 Definition ok (c : case) : bool :=
   match c with
@@ -58,6 +60,7 @@ Definition ok (c : case) : bool :=
       let w := build_where q in
       str_eqb (print_where q) o
       && opt_toks_eqb (lex o) (where_toks w)
+      && opt_toks_eqb (option_map where_toks (parse_where o)) (where_toks w)
       && forallb (fun r => match r with (ints, strs, sel) =>
                    let rw := mk_row ints strs in
                    Bool.eqb (eval_where prefix_match rw w) sel && Bool.eqb (row_selected prefix_match q rw) sel end) rows
@@ -67,6 +70,15 @@ Definition ok (c : case) : bool :=
          | Some (s', rest) => str_eqb s' s && str_eqb rest [41]
          | None => false
          end
+  | CFull q pre suf =>
+      match lex pre, lex suf with
+      | Some tp, Some tsf =>
+          match chk true tp, chk false tsf with Some _, Some _ => true | _, _ => false end
+          && str_eqb (render tp) pre && str_eqb (render tsf) suf
+          && is_nil (literals tp) && is_nil (literals tsf)
+          && opt_toks_eqb (lex (pre ++ print_where q ++ suf)) (tp ++ where_toks (build_where q) ++ tsf)
+      | _, _ => false
+      end
   end.
 
 Definition mism := mismatches ok.
